@@ -22,3 +22,9 @@ mod c18;
 
 #[cfg(all(kani, feature = "c11"))]
 mod c11;
+
+#[cfg(all(kani, feature = "c06"))]
+mod c06;
+
+#[cfg(all(kani, feature = "c08"))]
+mod c08;
